@@ -1013,6 +1013,7 @@ func (c *BytecodeCompiler) compileMacroBody(location *position.Location, paramet
 
 // Entry point for compiling the body of a method.
 func (c *BytecodeCompiler) compileMethodBody(location *position.Location, parameters []ast.ParameterNode, body []ast.StatementNode) {
+	var poolVar *bytecodeLocal
 	c.compileWithDeferAfterParams(
 		func() bool {
 			for _, param := range parameters {
@@ -1045,6 +1046,11 @@ func (c *BytecodeCompiler) compileMethodBody(location *position.Location, parame
 					c.emit(pSpan.StartPos.Line, bytecode.POP)
 				}
 			}
+			if c.isAsync && !c.isGenerator {
+				// `_pool` is the last parameter: its slot directly follows the declared parameters,
+				// so it has to be defined before the local that holds the defer stack
+				poolVar = c.defineLocal("_pool", location)
+			}
 			return true
 		},
 		func() {
@@ -1054,7 +1060,6 @@ func (c *BytecodeCompiler) compileMethodBody(location *position.Location, parame
 				c.emit(location.EndPos.Line, bytecode.RETURN)
 				c.registerCatch(-1, -1, c.nextInstructionOffset(), false)
 			} else if c.isAsync {
-				poolVar := c.defineLocal("_pool", location)
 				paramCount++
 				c.predefinedLocals++
 				c.bytecode.IncrementOptionalParameterCount()
